@@ -8,7 +8,7 @@ Inductive case := CProg (body : list stmt) (obs : outcome).
 
 Definition fuel : nat := Z.to_nat 30000.
 
-Definition gopher_devs := mkDevs false true true false false.
+Definition gopher_devs := mkDevs false true false false false.
 
 Definition is_skip (o : outcome) := match o with Outcome _ _ => false | _ => true end.
 
